@@ -1,10 +1,190 @@
 import Driver.Common
-/-! Judge for C02: not built yet (stub so that the target exists). -/
-open Lean Driver
+import EgVerif.Spec.Pipeline
+/-! Judge for C02: runs `Model.Pipeline` (validate / handle / handleBA / gfHandle) and the executable
+specification (`Spec.valid`, `Spec.runFlow`, `Spec.runBA`) on every harness case.
+One judge serves both harnesses (pipeline: modes `handle`, `hwba`; globalfilter: mode `gf`). -/
+open Lean Driver EgVerif.Pipeline
 
 namespace Driver.C02
 
-def judges : List (String × Judge) := []
+def parsePair (j : Json) : Except String (String × String) := do
+  let a ← j.getArr?
+  unless a.size == 2 do throw "pair"
+  pure (← a[0]!.getStr?, ← a[1]!.getStr?)
+
+def parseNode (j : Json) : Except String Node := do
+  let js ← getArr j "j"
+  let jm ← js.toList.mapM parsePair
+  pure ⟨optStr j "f", optStr j "a", optStr j "ns", jm⟩
+
+def parsePart (j : Json) : Except String PSpec := do
+  let fs ← (← getArr j "filters").toList.mapM parsePair
+  let fl ← (← getArr j "flow").toList.mapM parseNode
+  pure ⟨fs, fl⟩
+
+def optPart (input : Json) (k : String) : Except String (Option PSpec) :=
+  match input.getObjVal? k with
+  | .ok .null => pure none
+  | .ok j => do pure (some (← parsePart j))
+  | .error _ => pure none
+
+def parseKinds (input : Json) : Except String (List (String × List String)) := do
+  let ks ← (← getArr input "kinds").toList.mapM fun e => do
+    pure (optStr e "k", ← getStrList e "r")
+  pure (ks.filter (fun k => k.1 != ""))   -- the harness does not register a kind without a name
+
+/-- One observed run, as (alias, filter instance, kind, namespace, result) per invocation. -/
+structure ORun where
+  rows : List (String × String × String × String × String)
+  result : String
+  wellFormed : Bool
+
+def parseRun (j : Json) : Except String ORun := do
+  let calls ← (← getArr j "calls").toList.mapM fun c => do
+    let a ← c.getArr?
+    unless a.size == 3 do throw "call"
+    pure (← a[0]!.getStr?, ← a[1]!.getStr?, ← a[2]!.getStr?)
+  let stats ← (← getArr j "stats").toList.mapM parsePair
+  let raw := optStr j "raw"
+  let wf := calls.length == stats.length && raw == "" && optInt j "ntags" 1 == 1
+  let rows := (stats.zip calls).map fun (s, c) => (s.1, c.1, c.2.1, c.2.2, s.2)
+  pure ⟨rows, optStr j "result", wf⟩
+
+def rowsOf (tr : List Stat) : List (String × String × String × String × String) :=
+  tr.map fun s => (s.name, s.filter, s.kind, s.ns, s.result)
+
+def rowsJson (rows : List (String × String × String × String × String)) (result : String) : Json :=
+  Json.mkObj [("result", result), ("trace", Json.arr (rows.map (fun r =>
+    Json.arr #[r.1, r.2.1, r.2.2.1, r.2.2.2.1, r.2.2.2.2])).toArray)]
+
+/-- Specific class of a run mismatch (expected per spec vs observed). -/
+def diffSig : List (String × String × String × String × String) →
+    List (String × String × String × String × String) → String
+  | [], [] => "result"
+  | _ :: _, [] => "stopped-early"
+  | [], _ :: _ => "ran-after-end"
+  | e :: es, g :: gs =>
+    if e == g then diffSig es gs
+    else if e.1 != g.1 || e.2.1 != g.2.1 then "wrong-node"
+    else if e.2.2.1 != g.2.2.1 then "wrong-kind"
+    else if e.2.2.2.1 != g.2.2.2.1 then "wrong-namespace"
+    else "wrong-result"
+
+def script (s : List String) : Nat → String := fun k => s.getD k ""
+
+def judge : Judge := liftJudge fun input obs => do
+  let mode := optStr input "mode" "handle"
+  let kinds ← parseKinds input
+  let main := (← optPart input "main").getD ⟨[], []⟩
+  let before ← if mode == "handle" then pure none else optPart input "before"
+  let after ← if mode == "handle" then pure none else optPart input "after"
+  let scripts ← (← getArr input "scripts").toList.mapM fun s => do
+    match s with
+    | .null => pure []
+    | _ => (← s.getArr?).toList.mapM (·.getStr?)
+  match obsPanic obs with
+  | some m => pure { agree := false, spec := false, sig := "panic:" ++ mode, note := m }
+  | none =>
+  let validObs ← obs.getObjVal? "valid"
+  let parts : List (String × PSpec) := [("main", main)] ++
+    (if mode == "gf" then [("before", before.getD ⟨[], []⟩), ("after", after.getD ⟨[], []⟩)]
+     else (before.map (("before", ·))).toList ++ (after.map (("after", ·))).toList)
+  -- validation
+  let mut agree := true
+  let mut spec := true
+  let mut sig := ""
+  let mut note := ""
+  let mut tags : List String := ["mode:" ++ mode]
+  let mut allOk := true
+  let mut flowReject := false
+  for (nm, p) in parts do
+    let o := optStr validObs nm "missing"
+    let okObs := o == "ok"
+    if !okObs then
+      allOk := false
+      tags := tags ++ ["reject:" ++ o]
+      if o == "no-target" || o == "dup-target" || o == "undeclared-result" || o == "filter-not-found" then
+        flowReject := true
+    if okObs != validate kinds p then
+      agree := false
+      note := note ++ s!"validate({nm}): model {validate kinds p}, observed {o}; "
+    if okObs != Spec.valid kinds p then
+      if spec then
+        sig := if okObs then "validate:accepts-invalid" else "validate:rejects-valid:" ++ o
+      spec := false
+  if mode == "gf" then
+    -- globalfilter.Spec.Validate = both parts valid
+    let g := optStr obs "gf" "missing"
+    let want := gfValidate kinds (before.getD ⟨[], []⟩) (after.getD ⟨[], []⟩)
+    if (g == "ok") != want then
+      agree := false
+      note := note ++ s!"gfValidate: model {want}, observed {g}; "
+  if allOk then tags := tags ++ ["valid"] else tags := tags ++ ["invalid"]
+  let runs ← (← getArr obs "runs").toList.mapM parseRun
+  let init := optStr obs "init" "missing"
+  let mut nontrivial := flowReject
+  let mut expected : List Json := []
+  if !allOk then
+    -- a rejected spec must not have been run
+    if runs.length != 0 then
+      agree := false; note := note ++ "rejected spec was run; "
+  else
+    if init != "ok" then
+      agree := false; note := note ++ s!"init: {init}; "
+    else
+      let mp := mkPipe main
+      if main.flow.isEmpty then tags := tags ++ ["noflow"]
+      if (effFlow main).any (fun n => n.filter == END) then tags := tags ++ ["has-end-node"]
+      if (effFlow main).any (fun n => n.filter == END && n.alias != "") then tags := tags ++ ["aliased-end-node"]
+      if (effFlow main).any (fun n => ((effFlow main).filter (fun m => m.filter == n.filter && m.filter != END)).length > 1)
+        then tags := tags ++ ["filter-reused"]
+      tags := tags ++ [s!"nodes:{(effFlow main).length}"]
+      if runs.length != scripts.length then
+        agree := false; note := note ++ "number of runs; "
+      let mut jumped := false
+      let mut endedEarly := false
+      let mut baEnd := false
+      for (s, r) in scripts.zip runs do
+        let res := script s
+        -- model
+        let (mres, mtr, _) :=
+          if mode == "handle" then let h := handle res mp; (h.1, h.2, false)
+          else if mode == "gf" then gfHandle res mp (before.getD ⟨[], []⟩) (after.getD ⟨[], []⟩)
+          else handleBA res mp (before.map mkPipe) (after.map mkPipe)
+        -- executable specification
+        let sp :=
+          if mode == "handle" then (Spec.runFlow mp.kind res mp.flow []).map (fun o => (o.1, o.2.1, o.2.2))
+          else if mode == "gf" then Spec.runBA res mp (gfPipe (before.getD ⟨[], []⟩)) (gfPipe (after.getD ⟨[], []⟩))
+          else Spec.runBA res mp (before.map mkPipe) (after.map mkPipe)
+        expected := expected ++ [rowsJson (rowsOf mtr) mres]
+        if !(r.wellFormed && r.rows == rowsOf mtr && r.result == mres) then
+          agree := false
+          if note.length < 400 then note := note ++ s!"run {s}: model {(rowsJson (rowsOf mtr) mres).compress}; "
+        match sp with
+        | none =>
+          if spec then sig := "run:" ++ mode ++ ":spec-stuck"
+          spec := false
+        | some (sres, str, ended) =>
+          if !(r.wellFormed && r.rows == rowsOf str && r.result == sres) then
+            if spec then
+              sig := "run:" ++ mode ++ ":" ++ (if !r.wellFormed then "malformed-stats" else diffSig (rowsOf str) r.rows)
+              note := note ++ s!"run {s}: spec {(rowsJson (rowsOf str) sres).compress}; "
+            spec := false
+          -- classification
+          let tr := str
+          if (tr.zip (tr.drop 1)).any (fun (a, _) => a.result != "") then jumped := true
+          if ended then endedEarly := true
+          if mode != "handle" && ended then baEnd := true
+      if jumped then tags := tags ++ ["jump-taken"]
+      if endedEarly then tags := tags ++ ["ended"]
+      if baEnd then tags := tags ++ ["ba-ended"]
+      if before.isSome then tags := tags ++ ["with-before"]
+      if after.isSome then tags := tags ++ ["with-after"]
+      nontrivial := nontrivial || jumped || endedEarly
+  pure { agree := agree, spec := spec, expected := Json.arr expected.toArray, tags := tags,
+         nontrivial := nontrivial, sig := if spec then "" else sig, note := note }
+
+def judges : List (String × Judge) := [("C02", judge)]
 
 end Driver.C02
 
